@@ -246,6 +246,20 @@ def run(ctx):
                 robust(bytes(b), '%s at byte %d of a %s file with a log pass (%d bytes)' % (kind, ix, want, len(data)))
         for c in range(0, len(data), ctx.pick(7, 1)):
             robust(data[:c], 'truncation of a %s file with a log pass at byte %d' % (want, c))
+    # texts shaped like a DAT file (the DAT recogniser parses them) with out-of-range and malformed cells in every column
+    ext = ['99999999999999999999999', '-99999999999999999', '1e400', '-1e400', 'nan', 'inf', '0', '1' * 400, '1_0', '+5', '1.5', '0x10', '2147483648',
+           '-2147483649', '9' * 19, '1e', '.', '-', '99999999999999999999Dec06', '32Dec06', '0Dec06', '9Dec99999999999999999999', '99999999999-Dec-06',
+           '9-Dec-99999999999999999', '99999999999999999999-50-17', '11-99999999999999999999-17', '11-50-99999999999999999999', '-1-50-17', '11-50',
+           '11-50-17-3', '253402300800', '-62135596801']
+    for t in range(ctx.pick(1200, 12000)):
+        row = ['1165665017', '09Dec06', '11-50-17', '0']
+        for k in rng.sample(range(4), rng.choice([1, 1, 2])):
+            row[k] = rng.choice(ext)
+        text = 'UTIM Unix Time sec\nDATE Date ddmmyy\nTIME Time hhmmss\nWAC Wits Activity Code unitless\nUTIM DATE TIME WAC\n%s\n' % ' '.join(row)
+        if rng.random() < 0.3:
+            text += '1165665077 09Dec06 11-51-17 1\n'
+        robust(text.encode('ascii'), 'a DAT-shaped text with the data row %r' % (row,))
+    ctx.case(('dat-extremes',), True)
     # structured prefixes and random strings
     ebc_printable = [b for b in range(256) if b in (0x40, 0x4b, 0x4c, 0x4d, 0x4e, 0x50, 0x5a, 0x5b, 0x5c, 0x5d, 0x5e, 0x60, 0x61, 0x6b, 0x6c, 0x6d, 0x6e, 0x6f,
                                                      0x7a, 0x7b, 0x7c, 0x7d, 0x7e, 0x7f) or 0x81 <= b <= 0x89 or 0x91 <= b <= 0x99 or 0xa2 <= b <= 0xa9
